@@ -5,6 +5,22 @@ use crate::rng::Rng;
 pub const MAGIC: &[u8] = b"Gh0st";
 
 pub fn gen_request(rng: &mut Rng) -> Vec<u8> {
+    if rng.chance(1, 6) {
+        // a well-formed login: truthful lengths and a complete zlib stream - which may inflate to
+        // anything from nothing to a megabyte (highly compressible content)
+        let n = *rng.pick(&[0usize, 1, 224, 4096, 65535, 65536, 65636, 65753, 131089, 163840, 1 << 20]);
+        let fill = rng.u8();
+        let mut plain = vec![fill; n];
+        if n > 300 {
+            plain[168..218].copy_from_slice(&[b'h'; 50]);
+        }
+        let body = miniz_oxide::deflate::compress_to_vec_zlib(&plain, 6);
+        let mut v = MAGIC.to_vec();
+        v.extend_from_slice(&((13 + body.len()) as u32).to_le_bytes());
+        v.extend_from_slice(&(n as u32).to_le_bytes());
+        v.extend_from_slice(&body);
+        return v;
+    }
     if rng.chance(1, 2) {
         // the real framing: magic, total length, uncompressed length (LE32 each), zlib stream
         let mut v = MAGIC.to_vec();
